@@ -184,7 +184,10 @@ class Build:
         I.run(fn, [bref] + ([usize(at)] if at is not None else []) + [instr_struct], st, lambda s2, r: nxt(s2), depth + 1)
 
 
-def build_and_emit(ctx, tree_name, nodes, strategy):
+PARAMS = {'default': [0], 'params-desc': [4, 2, 0], 'scratch-before-params': [3, 4]}
+
+
+def build_and_emit(ctx, tree_name, nodes, strategy, params=(0,)):
     """-> (state, recorded module, expected operator list)"""
     I, P = pc.new_pipeline(ctx)
     st = engine.State()
@@ -203,10 +206,10 @@ def build_and_emit(ctx, tree_name, nodes, strategy):
         lids.append(r[0])
     types_ref = pipeline_field(mref, m, 'types')
     fbnew = I.method('new', impl_ty='FunctionBuilder', nparams=3)
-    params = I.halloc(st, VecVal([Enum('ValType', 'I32')]))
+    params_ref = I.halloc(st, VecVal([Enum('ValType', LOCALS[p].upper()) for p in params]))
     results = I.halloc(st, VecVal([]))
     r = []
-    I.run(fbnew, [types_ref, params, results], st, lambda s, v: r.append(v))
+    I.run(fbnew, [types_ref, params_ref, results], st, lambda s, v: r.append(v))
     fbref = I.halloc(st, r[0])
     body = []
     I.run(I.method('func_body', 'FunctionBuilder'), [fbref], st, lambda s, v: body.append(v))
@@ -220,7 +223,7 @@ def build_and_emit(ctx, tree_name, nodes, strategy):
     fin = I.method('finish', impl_ty='FunctionBuilder')
     funcs_ref = pipeline_field(mref, I.read_ref(st, mref), 'funcs')
     fid = []
-    I.run(fin, [I.read_ref(st, fbref), VecVal([lids[0]]), funcs_ref], st, lambda s, v: fid.append(v))
+    I.run(fin, [I.read_ref(st, fbref), VecVal([lids[p] for p in params]), funcs_ref], st, lambda s, v: fid.append(v))
     if fid[0] is PANIC:
         raise Inconclusive('finish panicked')
     # export it (keeps it alive and makes the module meaningful)
@@ -236,10 +239,10 @@ def pipeline_field(mref, m, name):
     return Ref(mref.key, mref.path + (('field', m.names.index(name)),))
 
 
-def run_case(ctx, report, tree_name, nodes, strategy, table, timeout_ms):
+def run_case(ctx, report, tree_name, nodes, strategy, table, timeout_ms, params=(0,)):
     ob = common.Obligation('O15:%s/%s' % (tree_name, strategy), 'tree `%s` built with strategy `%s`: the emitted body is exactly the in-order flattening (same instructions, nesting, branch depths), parameter at slot 0, one slot of the right type per used local' % (tree_name, strategy))
     try:
-        I, P, outs, expected = build_and_emit(ctx, tree_name, nodes, strategy)
+        I, P, outs, expected = build_and_emit(ctx, tree_name, nodes, strategy, params)
         vios = []
         n = 0
         for s2, rec, _m in outs:
@@ -260,15 +263,16 @@ def run_case(ctx, report, tree_name, nodes, strategy, table, timeout_ms):
             out_decl = []
             for cnt, vt in body['locals']:
                 out_decl += [vt] * cnt
+            np_ = len(params)
             for li, lo in Bc.local_map.items():
-                if li == 0:
-                    if lo != 0:
-                        C.bad.append(('body.local', 'parameter moved to slot %d' % lo))
-                elif lo < 1 or lo - 1 >= len(out_decl) or out_decl[lo - 1] != LOCALS[li]:
-                    C.bad.append(('body.local', 'local %d (%s) emitted in slot %d of %r' % (li, LOCALS[li], lo, body['locals'])))
-            used = set(Bc.local_map) - {0}
+                if li in params:
+                    if lo != list(params).index(li):
+                        C.bad.append(('body.local', 'parameter #%d (local %d) is emitted in slot %d' % (list(params).index(li), li, lo)))
+                elif lo < np_ or lo - np_ >= len(out_decl) or out_decl[lo - np_] != LOCALS[li]:
+                    C.bad.append(('body.local', 'local %d (%s) emitted in slot %d of %r (%d parameters)' % (li, LOCALS[li], lo, body['locals'], np_)))
+            used = set(Bc.local_map) - set(params)
             if len(out_decl) != len(used):
-                C.bad.append(('body.local', '%d local slots declared for %d used locals' % (len(out_decl), len(used))))
+                C.bad.append(('body.local', '%d local slots declared for %d used non-parameter locals' % (len(out_decl), len(used))))
             for key, what in C.bad:
                 vios.append({'key': key, 'what': '[%s/%s] %s' % (tree_name, strategy, what)})
             for key, what, cond in C.todo:
@@ -299,6 +303,11 @@ def run(tier, seed, only=None):
                 if only and '%s/%s' % (tname, strategy) not in only:
                     continue
                 run_case(ctx, report, tname, nodes, strategy, table, timeout_ms)
+        # parameters given to finish() in an order that is not the allocation order, and a scratch local allocated
+        # before the parameters (the situation replace_imported_func creates)
+        for pname in ('params-desc', 'scratch-before-params'):
+            if not only or ('locals/' + pname) in only:
+                run_case(ctx, report, 'locals@' + pname, trees()['locals'], 'append', table, timeout_ms, params=tuple(PARAMS[pname]))
     engine.run_in_big_stack(go)
     report.bounds = {'trees': '6 shapes (flat, nested block/loop with branches to three enclosing constructs incl. the function body, if/else with branches, typed block and if, five used locals of three types plus the parameter, dead tails)',
                      'insertion orders': 'append; every instruction inserted at position 0 in reverse; first+last appended then the middle inserted at final positions (the *_at methods); dangling sequences filled then attached with instr(Block/Loop/IfElse)',
